@@ -12,6 +12,8 @@
  *   PV_FAULT_REPORT=<path>   at exit append "calls=<n> fired=<m>"
  *   PV_DELAY_AFTER_WRITE_US=<us> / PV_DELAY_BEFORE_READ_US=<us>   sleep around every write / read on descriptors > 2
  *                            (nothing is dropped or reordered: pins one legal schedule of the threads)
+ *   PV_DELAY_AFTER_UNLOCK_US=<us>[:<n>]   sleep after every n-th (default 3rd) pthread_mutex_unlock: widens the window between the
+ *                           end of a critical section and the statement after it (a legal schedule; nothing is reordered)
  *   PV_DELAY_ONLY=<name>     apply the delays only in the process whose program name ends with <name>
  * Calls made by glibc's stdio internally do not go through the PLT and are not affected.
  */
@@ -105,16 +107,17 @@ static void full_init(void) {
   full_fd = fd; full_left = lim;
 }
 
-static long delay_w = -1, delay_r = -1;
+static long delay_w = -1, delay_r = -1, delay_u = 0, delay_u_every = 3;
 static void delays_init(void) {
   if (delay_w >= 0) return;
+  { const char *u = getenv("PV_DELAY_AFTER_UNLOCK_US"); if (u) { delay_u = atol(u); const char *c = strchr(u, ':'); if (c && atol(c + 1) > 0) delay_u_every = atol(c + 1); } }
   const char *a = getenv("PV_DELAY_AFTER_WRITE_US"), *b = getenv("PV_DELAY_BEFORE_READ_US"), *only = getenv("PV_DELAY_ONLY");
   delay_w = a ? atol(a) : 0;
   delay_r = b ? atol(b) : 0;
   if (only) {
     extern char *program_invocation_short_name;
     size_t n = strlen(only), m = strlen(program_invocation_short_name);
-    if (m < n || strcmp(program_invocation_short_name + m - n, only)) { delay_w = 0; delay_r = 0; }
+    if (m < n || strcmp(program_invocation_short_name + m - n, only)) { delay_w = 0; delay_r = 0; delay_u = 0; }
   }
 }
 
@@ -221,4 +224,21 @@ int close(int fd) {
     if (d == -1) { syscall(SYS_close, fd); return -1; }
   }
   return syscall(SYS_close, fd);
+}
+
+
+#include <dlfcn.h>
+int pthread_mutex_unlock(pthread_mutex_t *m) {
+  typedef int (*fn_t)(pthread_mutex_t *);
+  static fn_t real = 0;
+  static __thread int busy = 0;
+  static volatile long count = 0;
+  if (!real) real = (fn_t)dlsym(RTLD_NEXT, "pthread_mutex_unlock");
+  int r = real(m);
+  if (busy || m == &mu) return r;
+  busy = 1;
+  delays_init();
+  if (delay_u > 0 && (__sync_add_and_fetch(&count, 1) % delay_u_every) == 0) usleep(delay_u);
+  busy = 0;
+  return r;
 }
